@@ -486,9 +486,21 @@ class HistoryGen:
         while len(evs) < n:
             v = rng.choice(guarded if rng.random() < 0.6 else vals)
             evs.append({"op": "sec", "enc": rng.random() < 0.5, "auth": rng.random() < 0.5})
-            k = rng.randrange(4)
+            k = rng.choice([0, 1, 2, 3, 4, 4])
             data = rand_bytes(rng, rng.randrange(0, min(self.mtu - 5, 10) + 1))
-            if k == 0:
+            if k == 4:
+                # several queued handles, more than one of which may fail at execution (offset beyond the value)
+                pool = [w for w in vals if may_write(w, evs[-1]["enc"], evs[-1]["auth"])]
+                pool = pool if len(pool) >= 2 and rng.random() < 0.8 else vals
+                ws = rng.sample(pool, min(len(pool), rng.randrange(2, 4)))
+                for w in ws:
+                    Lw = len(w["value"])
+                    evs.append({"op": "req", "req": ("PrepareWrite", w["handle"], rng.choice([0, Lw + 1, Lw + 1, Lw, 1]),
+                                                     rand_bytes(rng, rng.randrange(0, 4))), "hooks": {}})
+                evs.append({"op": "req", "req": ("ExecuteWrite", 1), "hooks": {}})
+                for w in ws[1:]:
+                    evs.append({"op": "req", "req": ("Read", w["handle"]), "hooks": {}})
+            elif k == 0:
                 evs.append({"op": "req", "req": ("Write", v["handle"], data), "hooks": {}})
             elif k == 1:
                 evs.append({"op": "req", "req": ("WriteCmd", v["handle"], data), "hooks": {}})
